@@ -1,6 +1,7 @@
 (* C01 — malformed input never crashes, hangs or wedges the proxy (decoder part).
    Only statements; proofs live in Codec/*Proofs.v. *)
-From Mos Require Import Base.Prelude Codec.Name Codec.Msg Codec.NameProofs Codec.SafetyProofs Codec.WfProofs.
+From Mos Require Import Base.Prelude Codec.Name Codec.Msg Codec.NameProofs Codec.SafetyProofs Codec.WfProofs
+  Router.Rules Router.Edns Router.Router Router.RouterProofs.
 
 (* Name decoding terminates for EVERY octet list and offset — pointer loops included — within a
    concrete fuel bound, and never indexes out of range (safe = not Panic and not OutOfFuel). *)
@@ -25,6 +26,23 @@ Print Assumptions C01_decode_wf.
 Theorem C01_scan_total : forall n : list N, safe (scan n).
 Proof. exact scan_total. Qed.
 Print Assumptions C01_scan_total.
+
+(* The request handler is total on decoded queries: whatever the upstream returns (a decoded reply — C01_decode_wf —
+   or a failure), the response is a well-formed message, so Msg.Pack never fails on it and mustHaveRespB never needs
+   its fallbacks: exactly the primary branch produces the bytes written, on every listener kind.  (reject codes are
+   configured below 16; an upstream reply leaves room for the proxy's own OPT record.) *)
+Theorem C01_handler_total : forall matches rules ecs up,
+  rules_ok rules -> (forall u w r, up u w = UReply r -> wf_msg r /\ resp_room r) ->
+  forall (l : listener) (m : msg) (client : addr), wf_msg m ->
+  let r := fst (handle matches rules ecs up m client) in
+  wf_msg r /\
+  exists b, pack_msg (msg_len r) true (if match l with LTcp => true | _ => false end then max_size
+                                       else Nat.min (size_limit l m) max_size) r = Ok b /\
+            respond l m r = [if match l with LTcp => true | _ => false end then be16n (length b) ++ b else b].
+Proof.
+  intros matches rules ecs up Hr Hu l m client Hm. split; [now apply handle_wf|now apply handle_packs].
+Qed.
+Print Assumptions C01_handler_total.
 
 (* non-vacuity: a compression-pointer loop is rejected (not looped on); a valid query is accepted *)
 Example C01_example_loop :
